@@ -767,3 +767,436 @@ Proof.
   destruct H as (_ & _ & _ & led0 & w1 & last & resid & led2 & _ & Hr & _).
   eapply run_hops_registered in Hr; [|exact Hin]. exact Hr.
 Qed.
+
+(** ================================================================== clause 4: pass-through multi-hop *)
+(** what the pair endpoints return (no invariant needed) *)
+Lemma swap_in_outs p c tin ain tout mn p' o e :
+  ep_swap_in p c tin ain tout mn = Ok (p', o, e) -> exists out, o = [out] /\ 0 < mn <= out.
+Proof.
+  unfold ep_swap_in. intros H.
+  destruct (0 <? mn) eqn:Emn; [|discriminate]. destruct (0 <? ain); [|discriminate].
+  apply bind_ok in H. destruct H as (ord & _ & H).
+  destruct (can_swap (p_state p)); [|discriminate].
+  destruct (mn <? rout p ord); [|discriminate].
+  apply bind_ok in H. destruct H as (out & _ & H).
+  destruct (mn <=? out) eqn:Emo; [|discriminate].
+  destruct (out <? rout p ord); [|discriminate].
+  destruct (negb (out =? 0)); [|discriminate].
+  cbv zeta in H.
+  apply bind_ok in H. destruct H as (after & _ & H).
+  apply bind_ok in H. destruct H as (ro & _ & H).
+  destruct (k_check p _); [|discriminate].
+  apply bind_ok in H. destruct H as ([p3 e3] & _ & H).
+  apply bind_ok in H. destruct H as (p4 & _ & H).
+  inversion H; subst; clear H. beq. exists out. split; [reflexivity | lia].
+Qed.
+
+Lemma swap_out_outs p c tin amax tout aout p' o e :
+  ep_swap_out p c tin amax tout aout = Ok (p', o, e) ->
+  exists charged, o = [aout; amax - charged] /\ charged <= amax /\ 0 < aout.
+Proof.
+  unfold ep_swap_out. intros H.
+  destruct (0 <? aout) eqn:Eao; [|discriminate]. destruct (0 <? amax); [|discriminate].
+  apply bind_ok in H. destruct H as (ord & _ & H).
+  destruct (can_swap (p_state p)); [|discriminate].
+  destruct (aout <? rout p ord); [|discriminate].
+  apply bind_ok in H. destruct H as (ain & _ & H).
+  destruct (ain <=? amax) eqn:Emo; [|discriminate].
+  destruct (negb (ain =? 0)); [|discriminate].
+  cbv zeta in H.
+  apply bind_ok in H. destruct H as (after & _ & H).
+  apply bind_ok in H. destruct H as (ro & _ & H).
+  destruct (k_check p _); [|discriminate].
+  apply bind_ok in H. destruct H as ([p3 e3] & _ & H).
+  apply bind_ok in H. destruct H as (p4 & _ & H).
+  inversion H; subst; clear H. beq. exists ain. split; [reflexivity | lia].
+Qed.
+
+(** the pair operation a hop amounts to, in the pair's own token codes *)
+Definition hop_op (pe : pent) (f tin ain tw aw : Z) : pop :=
+  if f =? FIXED_IN then SwapIn ROUTER (loc pe tin) ain (loc pe tw) aw
+  else SwapOut ROUTER (loc pe tin) ain (loc pe tw) aw.
+
+(** One hop is exactly the addressed pair's own swap step, run on that pair's state alone:
+    same result, same new pair state; no other pair and nothing in the registry changes. *)
+Lemma do_hop_spec w addr f tw aw tin ain resid w' last' resid' :
+  do_hop w (addr, f, tw, aw) (tin, ain) resid = Ok (w', last', resid') ->
+  exists pe p' o e,
+    registered w addr = Ok pe /\ (f = FIXED_IN \/ f = FIXED_OUT) /\
+    step (pe_p pe) (hop_op pe f tin ain tw aw) = Ok (p', o, e) /\ e_ext e = [] /\
+    w_pairs w' = upd_pair (w_pairs w) addr (set_pp pe p') /\ w_r w' = w_r w /\
+    fst last' = tw /\
+    (f = FIXED_IN -> o = [snd last'] /\ 0 < snd last' /\ resid' = resid) /\
+    (f = FIXED_OUT -> exists res, o = [aw; res] /\ snd last' = aw /\ 0 <= res /\ 0 < aw /\
+                                  resid' = if 0 <? res then resid ++ [(tin, res)] else resid).
+Proof.
+  unfold do_hop. intros H. apply bind_ok in H. destruct H as (pe & Hreg & H).
+  unfold hop_op. destruct (f =? FIXED_IN) eqn:Ef.
+  - apply bind_ok in H. destruct H as (led1 & _ & H).
+    apply bind_ok in H. destruct H as ([[p' o] e] & Hs & H).
+    destruct (swap_in_outs _ _ _ _ _ _ _ _ _ Hs) as (out & -> & Hout).
+    destruct (e_ext e) eqn:Ee; [|discriminate]. inversion H; subst; clear H. beq.
+    exists pe, p', [out], e. simpl.
+    split; [exact Hreg|]. split; [left; exact Ef|]. split; [exact Hs|]. split; [exact Ee|].
+    split; [reflexivity|]. split; [reflexivity|]. split; [reflexivity|].
+    split; [intros _; split; [reflexivity | split; [lia | reflexivity]]|].
+    intros Hf. subst f. discriminate.
+  - destruct (f =? FIXED_OUT) eqn:Ef2; [|discriminate].
+    apply bind_ok in H. destruct H as (led1 & _ & H).
+    apply bind_ok in H. destruct H as ([[p' o] e] & Hs & H).
+    destruct (swap_out_outs _ _ _ _ _ _ _ _ _ Hs) as (ch & -> & Hch & Haw).
+    destruct (e_ext e) eqn:Ee; [|discriminate]. inversion H; subst; clear H. beq.
+    exists pe, p', [aw; ain - ch], e. simpl.
+    split; [exact Hreg|]. split; [right; exact Ef2|]. split; [exact Hs|]. split; [exact Ee|].
+    split; [reflexivity|]. split; [reflexivity|]. split; [reflexivity|].
+    split; [intros Hf; contradiction|].
+    intros _. exists (ain - ch). split; [reflexivity|]. split; [reflexivity|].
+    split; [lia|]. split; [exact Haw | reflexivity].
+Qed.
+
+(** ledger effect of one hop: only the router's balances move, and the router's balance net of
+    what it is holding for the caller ([resid ++ [last]]) does not change *)
+Lemma do_hop_led w h last resid w' last' resid' :
+  do_hop w h last resid = Ok (w', last', resid') ->
+  (forall a t, a <> ROUTER -> lget (w_led w') a t = lget (w_led w) a t) /\
+  (forall t, lget (w_led w') ROUTER t - sum_tok (resid' ++ [last']) t =
+             lget (w_led w) ROUTER t - sum_tok (resid ++ [last]) t).
+Proof.
+  destruct h as [[[addr f] tw] aw]. destruct last as [tin ain]. unfold do_hop.
+  intros H. apply bind_ok in H. destruct H as (pe & Hreg & H).
+  destruct (f =? FIXED_IN).
+  - apply bind_ok in H. destruct H as (led1 & Hd & H).
+    apply bind_ok in H. destruct H as ([[p' o] e] & Hs & H).
+    destruct (swap_in_outs _ _ _ _ _ _ _ _ _ Hs) as (out & -> & Hout).
+    destruct (e_ext e); [|discriminate]. inversion H; subst; clear H.
+    apply debit_ok in Hd. destruct Hd as [_ Hd]. simpl. split.
+    + intros a t Ha. rewrite lget_credit, Hd. unfold keq.
+      destruct (ROUTER =? a) eqn:E; [beq; congruence|]. simpl. lia.
+    + intros t. rewrite lget_credit, Hd, !sum_tok_app. unfold keq. simpl. rewrite ?Z.eqb_refl. simpl.
+      destruct (tin =? t), (tw =? t); lia.
+  - destruct (f =? FIXED_OUT); [|discriminate].
+    apply bind_ok in H. destruct H as (led1 & Hd & H).
+    apply bind_ok in H. destruct H as ([[p' o] e] & Hs & H).
+    destruct (swap_out_outs _ _ _ _ _ _ _ _ _ Hs) as (ch & -> & Hch & Haw).
+    destruct (e_ext e); [|discriminate]. inversion H; subst; clear H.
+    apply debit_ok in Hd. destruct Hd as [_ Hd]. simpl. split.
+    + intros a t Ha. rewrite !lget_credit, Hd. unfold keq.
+      destruct (ROUTER =? a) eqn:E; [beq; congruence|]. simpl. lia.
+    + intros t. rewrite !lget_credit, Hd. unfold keq. simpl. rewrite ?Z.eqb_refl. simpl.
+      destruct (0 <? ain - ch) eqn:Er; beq; rewrite !sum_tok_app; simpl;
+        destruct (tin =? t), (tw =? t); lia.
+Qed.
+
+Lemma run_hops_led hops : forall w last resid w' last' resid',
+  run_hops w hops last resid = Ok (w', last', resid') ->
+  (forall a t, a <> ROUTER -> lget (w_led w') a t = lget (w_led w) a t) /\
+  (forall t, lget (w_led w') ROUTER t - sum_tok (resid' ++ [last']) t =
+             lget (w_led w) ROUTER t - sum_tok (resid ++ [last]) t).
+Proof.
+  induction hops as [|h t IH]; intros w last resid w' last' resid' H; simpl in H.
+  - inversion H; subst. split; reflexivity.
+  - apply bind_ok in H. destruct H as ([[w1 l1] r1] & Hh & H).
+    apply do_hop_led in Hh. destruct Hh as [A1 A2].
+    apply IH in H. destruct H as [B1 B2]. split.
+    + intros a tk Ha. rewrite B1, A1; auto.
+    + intros tk. rewrite B2, A2. reflexivity.
+Qed.
+
+(** A multi-hop swap leaves the router's own balances unchanged; the caller pays the input and
+    receives exactly the returned payments; nobody else's balance moves. *)
+Lemma multi_swap_ledger w c tin amt hops w' ps : c <> ROUTER ->
+  ep_multi_swap w c tin amt hops = Ok (w', ps) ->
+  (forall t, lget (w_led w') ROUTER t = lget (w_led w) ROUTER t) /\
+  (forall t, lget (w_led w') c t = lget (w_led w) c t - (if tin =? t then amt else 0) + sum_tok ps t) /\
+  (forall a t, a <> ROUTER -> a <> c -> lget (w_led w') a t = lget (w_led w) a t).
+Proof.
+  intros Hc H. apply multi_swap_struct in H.
+  destruct H as (_ & _ & _ & led0 & w1 & last & resid & led2 & Hd & Hr & Hps & Hp & ->).
+  apply debit_ok in Hd. destruct Hd as [_ Hd].
+  apply run_hops_led in Hr. destruct Hr as [R1 R2]. simpl in R1, R2.
+  pose proof (pay_all_ok _ _ _ _ _ Hp (not_eq_sym Hc)) as P. simpl.
+  split; [|split].
+  - intros t. rewrite P. rewrite ?Z.eqb_refl.
+    destruct (ROUTER =? c) eqn:E; [beq; congruence|].
+    specialize (R2 t). rewrite <- Hps in R2. rewrite lget_credit, Hd in R2. unfold keq in R2. simpl in R2.
+    rewrite ?Z.eqb_refl in R2. destruct (c =? ROUTER) eqn:E2; [beq; congruence|]. simpl in R2.
+    destruct (tin =? t); lia.
+  - intros t. rewrite P. rewrite ?Z.eqb_refl. destruct (c =? ROUTER) eqn:E; [beq; congruence|].
+    rewrite R1 by assumption. rewrite lget_credit, Hd. unfold keq. rewrite ?Z.eqb_refl.
+    destruct (ROUTER =? c) eqn:E2; [beq; congruence|]. simpl. destruct (tin =? t); lia.
+  - intros a t Ha Hac. rewrite P.
+    destruct (a =? ROUTER) eqn:E1; [beq; congruence|]. destruct (a =? c) eqn:E2; [beq; congruence|].
+    rewrite R1 by assumption. rewrite lget_credit, Hd. unfold keq.
+    destruct (ROUTER =? a) eqn:E3; [beq; congruence|]. destruct (c =? a) eqn:E4; [beq; congruence|].
+    simpl. lia.
+Qed.
+
+(** the returned payments are the fixed-output residuals (in hop order) followed by the last output,
+    where at every position of the hop list the hop is the pair's own step ([do_hop_spec]) *)
+Lemma multi_swap_each_hop w c tin amt hops w' ps :
+  ep_multi_swap w c tin amt hops = Ok (w', ps) ->
+  exists w0, w_r w0 = w_r w /\ w_pairs w0 = w_pairs w /\
+  forall pre h post, hops = pre ++ h :: post ->
+    exists wi lasti residi wj lastj residj,
+      run_hops w0 pre (tin, amt) [] = Ok (wi, lasti, residi) /\
+      do_hop wi h lasti residi = Ok (wj, lastj, residj) /\
+      exists wn lastn residn, run_hops wj post lastj residj = Ok (wn, lastn, residn) /\
+        ps = residn ++ [lastn] /\ w_pairs w' = w_pairs wn /\ w_r w' = w_r wn.
+Proof.
+  intros H. apply multi_swap_struct in H.
+  destruct H as (_ & _ & _ & led0 & w1 & last & resid & led2 & _ & Hr & Hps & _ & ->).
+  eexists. split; [|split; [|intros pre h post ->]]; [| |rewrite run_hops_app in Hr].
+  3: { apply bind_ok in Hr. destruct Hr as ([[wi li] ri] & Hpre & Hr). simpl in Hr.
+       apply bind_ok in Hr. destruct Hr as ([[wj lj] rj] & Hh & Hr).
+       exists wi, li, ri, wj, lj, rj. split; [exact Hpre|]. split; [exact Hh|].
+       exists w1, last, resid. auto. }
+  all: reflexivity.
+Qed.
+
+(** any failing hop fails the whole call (and by [rstep_total] the world is unchanged) *)
+Lemma multi_swap_hop_fails w c tin amt pre h post led0 wi lasti residi er :
+  debit (w_led w) c tin amt = Ok led0 ->
+  run_hops (set_led w (credit led0 ROUTER tin amt)) pre (tin, amt) [] = Ok (wi, lasti, residi) ->
+  do_hop wi h lasti residi = Err er ->
+  is_ok (ep_multi_swap w c tin amt (pre ++ h :: post)) = false.
+Proof.
+  intros Hd Hpre Hh. unfold ep_multi_swap.
+  destruct (r_active (w_r w)); [|reflexivity]. destruct (tok_valid tin); [|reflexivity].
+  destruct (0 <? amt); [|reflexivity].
+  destruct (match pre ++ h :: post with [] => false | _ => true end); [|reflexivity].
+  rewrite Hd. simpl. rewrite run_hops_app, Hpre. simpl. rewrite Hh. reflexivity.
+Qed.
+
+Lemma multi_swap_unregistered_fails w c tin amt hops h :
+  In h hops -> ~ Registered w (hop_addr h) -> is_ok (ep_multi_swap w c tin amt hops) = false.
+Proof.
+  intros Hin Hn. destruct (ep_multi_swap w c tin amt hops) as [[w' ps]|] eqn:E; [|reflexivity].
+  exfalso. apply Hn. eapply multi_swap_hops_registered; eauto.
+Qed.
+
+Lemma failed_step_unchanged w op : is_ok (rstep w op) = false -> rstep_total w op = w.
+Proof. unfold rstep_total. destruct (rstep w op) as [[w' o]|]; [discriminate | reflexivity]. Qed.
+
+(** ------------------------------------------------------------------ a hop obeys the documented
+    swap formulas of the pair it goes through (C03 applied to the hop's pair) *)
+Lemma hop_fixed_input_formula w addr tw mn tin ain resid w' last' resid' : WInv w ->
+  do_hop w (addr, FIXED_IN, tw, mn) (tin, ain) resid = Ok (w', last', resid') ->
+  exists pe ord,
+    registered w addr = Ok pe /\ swap_order (loc pe tin) (loc pe tw) = Ok ord /\
+    p_state (pe_p pe) = ST_Active /\
+    is_floor (snd last') (ain * (M - p_fee (pe_p pe)) * rout (pe_p pe) ord)
+             (rin (pe_p pe) ord * M + ain * (M - p_fee (pe_p pe))) /\
+    0 < mn <= snd last' /\ fst last' = tw /\ resid' = resid.
+Proof.
+  intros Hinv H. apply do_hop_spec in H.
+  destruct H as (pe & p' & o & e & Hreg & _ & Hs & _ & _ & _ & Hl & Hin & _).
+  destruct (Hin eq_refl) as (-> & _ & ->). unfold hop_op in Hs. simpl in Hs.
+  pose proof (registered_ok _ _ _ Hreg) as [Hat _].
+  apply swap_in_char in Hs; [|eapply wi_pinv; eauto].
+  destruct Hs as (ord & out & sp & Hord & Ho & Hst & _ & Hfl & Hmn & _).
+  inversion Ho; subst out. exists pe, ord. auto 10.
+Qed.
+
+Lemma hop_fixed_output_formula w addr tw aw tin ain resid w' last' resid' : WInv w ->
+  do_hop w (addr, FIXED_OUT, tw, aw) (tin, ain) resid = Ok (w', last', resid') ->
+  exists pe ord charged,
+    registered w addr = Ok pe /\ swap_order (loc pe tin) (loc pe tw) = Ok ord /\
+    p_state (pe_p pe) = ST_Active /\ last' = (tw, aw) /\
+    is_floor (charged - 1) (rin (pe_p pe) ord * aw * M) ((rout (pe_p pe) ord - aw) * (M - p_fee (pe_p pe))) /\
+    0 < charged <= ain /\
+    resid' = (if 0 <? ain - charged then resid ++ [(tin, ain - charged)] else resid).
+Proof.
+  intros Hinv H. apply do_hop_spec in H.
+  destruct H as (pe & p' & o & e & Hreg & _ & Hs & _ & _ & _ & Hl & _ & Hout).
+  destruct (Hout eq_refl) as (res & -> & Hsl & _ & _ & ->). unfold hop_op in Hs. simpl in Hs.
+  pose proof (registered_ok _ _ _ Hreg) as [Hat _].
+  apply swap_out_char in Hs; [|eapply wi_pinv; eauto].
+  destruct Hs as (ord & ch & sp & Hord & Ho & Hst & _ & Hfl & Hch & _).
+  inversion Ho; subst res. exists pe, ord, ch.
+  split; [exact Hreg|]. split; [exact Hord|]. split; [exact Hst|].
+  split; [clear - Hl Hsl; destruct last' as [lt lo]; simpl in Hl, Hsl; subst; reflexivity|].
+  split; [exact Hfl|]. split; [exact Hch | reflexivity].
+Qed.
+
+(** ------------------------------------------------------------------ a one-hop multiPairSwap is
+    the same as the caller swapping on that pair directly: same payments, same pair state, same
+    balances everywhere *)
+Lemma swap_order_glob pe tin tw ord : swap_order (loc pe tin) (loc pe tw) = Ok ord ->
+  glob pe (loc pe tin) = tin /\ glob pe (loc pe tw) = tw.
+Proof.
+  intros H. apply swap_order_spec in H. destruct H as [H1 H2].
+  assert (G : forall t, loc pe t = T1 \/ loc pe t = T2 -> glob pe (loc pe t) = t).
+  { intros t. unfold loc, glob, T1, T2.
+    destruct (t =? pe_t1 pe) eqn:E1; [beq; subst; reflexivity|].
+    destruct (t =? pe_t2 pe) eqn:E2; [beq; subst; reflexivity|].
+    intros [X|X]; lia. }
+  split; apply G; destruct ord; simpl in *; auto.
+Qed.
+
+Lemma swap_in_order p c tin ain tout mn r : ep_swap_in p c tin ain tout mn = Ok r ->
+  exists ord, swap_order tin tout = Ok ord.
+Proof.
+  unfold ep_swap_in. intros H.
+  destruct (0 <? mn); [|discriminate]. destruct (0 <? ain); [|discriminate].
+  apply bind_ok in H. destruct H as (ord & Ho & _). eauto.
+Qed.
+
+Lemma swap_out_order p c tin amax tout aout r : ep_swap_out p c tin amax tout aout = Ok r ->
+  exists ord, swap_order tin tout = Ok ord.
+Proof.
+  unfold ep_swap_out. intros H.
+  destruct (0 <? aout); [|discriminate]. destruct (0 <? amax); [|discriminate].
+  apply bind_ok in H. destruct H as (ord & Ho & _). eauto.
+Qed.
+
+Lemma single_hop_fixed_input_is_direct_swap w c addr tin amt tw mn w' ps : c <> ROUTER ->
+  ep_multi_swap w c tin amt [(addr, FIXED_IN, tw, mn)] = Ok (w', ps) ->
+  exists pe wd out,
+    registered w addr = Ok pe /\
+    ep_direct w addr (SwapIn c (loc pe tin) amt (loc pe tw) mn) = Ok (wd, [out]) /\
+    ps = [(tw, out)] /\ w_pairs w' = w_pairs wd /\ w_r w' = w_r wd /\
+    forall a t, lget (w_led w') a t = lget (w_led wd) a t.
+Proof.
+  intros Hc H. pose proof (multi_swap_ledger _ _ _ _ _ _ _ Hc H) as (L1 & L2 & L3).
+  apply multi_swap_struct in H.
+  destruct H as (_ & _ & _ & led0 & w1 & last & resid & led2 & Hd & Hr & Hps & Hp & ->).
+  cbn [run_hops] in Hr. apply bind_ok in Hr. destruct Hr as ([[wj lj] rj] & Hh & Hr). inversion Hr; subst; clear Hr.
+  apply do_hop_spec in Hh.
+  destruct Hh as (pe & p' & o & e & Hreg & _ & Hs & Hee & Hpairs & Hrr & Hl & Hin & _).
+  destruct (Hin eq_refl) as (-> & _ & ->). destruct last as [lt out]. simpl in Hl. subst lt. simpl in *.
+  unfold hop_op in Hs. simpl in Hs.
+  assert (Hreg' : registered w addr = Ok pe) by exact Hreg.
+  pose proof (registered_ok _ _ _ Hreg') as [Hat _].
+  destruct (swap_in_order _ _ _ _ _ _ _ Hs) as (ord & Hord).
+  destruct (swap_order_glob _ _ _ _ Hord) as [G1 G2].
+  exists pe. eexists. exists out. split; [exact Hreg'|]. split.
+  - unfold ep_direct. rewrite Hat. simpl.
+    change (ep_swap_in (pe_p pe) c (loc pe tin) amt (loc pe tw) mn) with
+           (ep_swap_in (pe_p pe) ROUTER (loc pe tin) amt (loc pe tw) mn).
+    rewrite Hs. simpl. rewrite Hee. simpl. rewrite G1, G2, Hd. simpl. reflexivity.
+  - split; [reflexivity|]. simpl. split; [exact Hpairs|]. split; [exact Hrr|].
+    apply debit_ok in Hd. destruct Hd as [_ Hd].
+    intros a t. rewrite lget_credit, Hd. unfold keq.
+    destruct (a =? ROUTER) eqn:E1.
+    + beq. subst a. rewrite L1. destruct (c =? ROUTER) eqn:E; [beq; congruence|]. simpl. lia.
+    + destruct (a =? c) eqn:E2.
+      * beq. subst a. rewrite L2. rewrite Z.eqb_refl. simpl. destruct (tin =? t), (tw =? t); lia.
+      * beq. rewrite L3 by assumption. destruct (c =? a) eqn:E; [beq; congruence|]. simpl. lia.
+Qed.
+
+Lemma single_hop_fixed_output_is_direct_swap w c addr tin amt tw aw w' ps : c <> ROUTER ->
+  ep_multi_swap w c tin amt [(addr, FIXED_OUT, tw, aw)] = Ok (w', ps) ->
+  exists pe wd res,
+    registered w addr = Ok pe /\
+    ep_direct w addr (SwapOut c (loc pe tin) amt (loc pe tw) aw) = Ok (wd, [aw; res]) /\
+    0 <= res /\ ps = (if 0 <? res then [(tin, res)] else []) ++ [(tw, aw)] /\
+    w_pairs w' = w_pairs wd /\ w_r w' = w_r wd /\
+    forall a t, lget (w_led w') a t = lget (w_led wd) a t.
+Proof.
+  intros Hc H. pose proof (multi_swap_ledger _ _ _ _ _ _ _ Hc H) as (L1 & L2 & L3).
+  apply multi_swap_struct in H.
+  destruct H as (_ & _ & _ & led0 & w1 & last & resid & led2 & Hd & Hr & Hps & Hp & ->).
+  cbn [run_hops] in Hr. apply bind_ok in Hr. destruct Hr as ([[wj lj] rj] & Hh & Hr). inversion Hr; subst; clear Hr.
+  apply do_hop_spec in Hh.
+  destruct Hh as (pe & p' & o & e & Hreg & _ & Hs & Hee & Hpairs & Hrr & Hl & _ & Hout).
+  destruct (Hout eq_refl) as (res & -> & Hsl & Hres & _ & ->). destruct last as [lt out]. simpl in Hl, Hsl. subst lt out.
+  simpl in *. unfold hop_op in Hs. simpl in Hs.
+  assert (Hreg' : registered w addr = Ok pe) by exact Hreg.
+  pose proof (registered_ok _ _ _ Hreg') as [Hat _].
+  destruct (swap_out_order _ _ _ _ _ _ _ Hs) as (ord & Hord).
+  destruct (swap_order_glob _ _ _ _ Hord) as [G1 G2].
+  exists pe. eexists. exists res. split; [exact Hreg'|]. split.
+  - unfold ep_direct. rewrite Hat. simpl.
+    change (ep_swap_out (pe_p pe) c (loc pe tin) amt (loc pe tw) aw) with
+           (ep_swap_out (pe_p pe) ROUTER (loc pe tin) amt (loc pe tw) aw).
+    rewrite Hs. simpl. rewrite Hee. simpl. rewrite G1, G2, Hd. simpl. reflexivity.
+  - split; [exact Hres|]. split; [destruct (0 <? res); reflexivity|]. simpl.
+    split; [exact Hpairs|]. split; [exact Hrr|].
+    apply debit_ok in Hd. destruct Hd as [_ Hd].
+    intros a t. rewrite !lget_credit, Hd. unfold keq.
+    assert (Hsum : sum_tok ((if 0 <? res then [(tin, res)] else []) ++ [(tw, aw)]) t =
+                   (if tin =? t then res else 0) + (if tw =? t then aw else 0)).
+    { rewrite sum_tok_app. destruct (0 <? res) eqn:Er; simpl; beq; destruct (tin =? t), (tw =? t); lia. }
+    destruct (a =? ROUTER) eqn:E1.
+    + beq. subst a. rewrite L1. destruct (c =? ROUTER) eqn:E; [beq; congruence|]. simpl. lia.
+    + destruct (a =? c) eqn:E2.
+      * beq. subst a. rewrite L2, Hsum. rewrite Z.eqb_refl. simpl. destruct (tin =? t), (tw =? t); lia.
+      * beq. rewrite L3 by assumption. destruct (c =? a) eqn:E; [beq; congruence|]. simpl. lia.
+Qed.
+
+(** ------------------------------------------------------------------ reachable worlds *)
+Definition Reachable (w : world) : Prop := exists led blk ops, w = rrun (init_world led blk) ops.
+
+Lemma reachable_inv w : Reachable w -> WInv w.
+Proof. intros (led & blk & ops & ->). apply reachable_winv. Qed.
+
+Lemma reachable_step w op : Reachable w -> Reachable (rstep_total w op).
+Proof.
+  intros (led & blk & ops & ->). exists led, blk, (ops ++ [op]).
+  unfold rrun. rewrite fold_left_app. reflexivity.
+Qed.
+
+(** the registry facts, stated for every reachable world *)
+Lemma reach_one_per_pair w : Reachable w -> forall a b x c d y,
+  In (a, b, x) (r_map (w_r w)) -> In (c, d, y) (r_map (w_r w)) -> uo_eq (a, b) (c, d) ->
+  (a, b, x) = (c, d, y).
+Proof. intros H. exact (registry_one_per_pair w (reachable_inv w H)). Qed.
+
+Lemma reach_lookup_sym w : Reachable w -> forall a b,
+  get_pair (r_map (w_r w)) a b = get_pair (r_map (w_r w)) b a.
+Proof. intros H. exact (registry_lookup_sym w (reachable_inv w H)). Qed.
+
+Lemma reach_lookup_char w : Reachable w -> forall a b x,
+  get_pair (r_map (w_r w)) a b = Some x <->
+  (In (a, b, x) (r_map (w_r w)) \/ In (b, a, x) (r_map (w_r w))).
+Proof. intros H. exact (registry_lookup_char w (reachable_inv w H)). Qed.
+
+Lemma reach_listed w : Reachable w ->
+  NoDup (all_pairs (r_map (w_r w))) /\
+  forall a b x, In (a, b, x) (r_map (w_r w)) ->
+    a <> b /\ exists pe, pair_at (w_pairs w) x = Some pe /\ pe_t1 pe = a /\ pe_t2 pe = b.
+Proof.
+  intros H. split; [exact (registry_addr_nodup w (reachable_inv w H)) | exact (wi_ent w (reachable_inv w H))].
+Qed.
+
+Lemma reach_create_registers w c a b adder fees na w' o : Reachable w ->
+  ep_create_pair w c a b adder fees na = Ok (w', o) ->
+  get_pair (r_map (w_r w')) a b = Some na /\ get_pair (r_map (w_r w')) b a = Some na /\
+  all_pairs (r_map (w_r w')) = all_pairs (r_map (w_r w)) ++ [na] /\
+  ~ In na (all_pairs (r_map (w_r w))) /\ Registered w' na.
+Proof. intros H. exact (create_pair_registers w c a b adder fees na w' o (reachable_inv w H)). Qed.
+
+Lemma reach_remove w c a b w' o : Reachable w ->
+  ep_remove_pair w c a b = Ok (w', o) ->
+  c = r_owner (w_r w) /\ r_active (w_r w) = true /\ a <> b /\
+  (exists p, get_pair (r_map (w_r w)) a b = Some p /\ o = [p]) /\
+  get_pair (r_map (w_r w')) a b = None /\ get_pair (r_map (w_r w')) b a = None /\
+  w_pairs w' = w_pairs w.
+Proof. intros H. exact (remove_pair_guard w c a b w' o (reachable_inv w H)). Qed.
+
+Lemma reach_registered_iff_listed w addr : Reachable w ->
+  (Registered w addr <-> In addr (all_pairs (r_map (w_r w)))).
+Proof. intros H. exact (registered_iff_listed w addr (reachable_inv w H)). Qed.
+
+Lemma reach_hop_fixed_input w addr tw mn tin ain resid w' last' resid' : Reachable w ->
+  do_hop w (addr, FIXED_IN, tw, mn) (tin, ain) resid = Ok (w', last', resid') ->
+  exists pe ord,
+    registered w addr = Ok pe /\ swap_order (loc pe tin) (loc pe tw) = Ok ord /\
+    p_state (pe_p pe) = ST_Active /\
+    is_floor (snd last') (ain * (M - p_fee (pe_p pe)) * rout (pe_p pe) ord)
+             (rin (pe_p pe) ord * M + ain * (M - p_fee (pe_p pe))) /\
+    0 < mn <= snd last' /\ fst last' = tw /\ resid' = resid.
+Proof. intros H. exact (hop_fixed_input_formula w addr tw mn tin ain resid w' last' resid' (reachable_inv w H)). Qed.
+
+Lemma reach_hop_fixed_output w addr tw aw tin ain resid w' last' resid' : Reachable w ->
+  do_hop w (addr, FIXED_OUT, tw, aw) (tin, ain) resid = Ok (w', last', resid') ->
+  exists pe ord charged,
+    registered w addr = Ok pe /\ swap_order (loc pe tin) (loc pe tw) = Ok ord /\
+    p_state (pe_p pe) = ST_Active /\ last' = (tw, aw) /\
+    is_floor (charged - 1) (rin (pe_p pe) ord * aw * M) ((rout (pe_p pe) ord - aw) * (M - p_fee (pe_p pe))) /\
+    0 < charged <= ain /\
+    resid' = (if 0 <? ain - charged then resid ++ [(tin, ain - charged)] else resid).
+Proof. intros H. exact (hop_fixed_output_formula w addr tw aw tin ain resid w' last' resid' (reachable_inv w H)). Qed.
+
+Lemma reach_pairs_inv w x pe : Reachable w -> pair_at (w_pairs w) x = Some pe -> PairInv (pe_p pe).
+Proof. intros H. exact (wi_pinv w (reachable_inv w H) x pe). Qed.
